@@ -215,8 +215,24 @@ func fromEntry(ctx context.Context, services coreiface.CoreAPI, sourceEntries []
 		sliced = uniques
 	}
 
+	// put the source entries that were trimmed away back, in place of the
+	// oldest entries that the caller did not supply
 	missingSourceEntries := entry.Difference(sliced, sourceEntries)
-	result := append(missingSourceEntries, entrySliceRange(sliced, len(missingSourceEntries), len(sliced))...)
+	isSource := map[string]struct{}{}
+	for _, e := range sourceEntries {
+		isSource[e.GetHash().String()] = struct{}{}
+	}
+
+	toDrop := len(missingSourceEntries)
+	result := missingSourceEntries
+	for _, e := range sliced {
+		if _, ok := isSource[e.GetHash().String()]; toDrop > 0 && !ok {
+			toDrop--
+			continue
+		}
+
+		result = append(result, e)
+	}
 
 	return &Snapshot{
 		ID:     result[len(result)-1].GetLogID(),
